@@ -66,4 +66,14 @@ LEVELS = {
         "text": "Each observed HMC row update is replayed by an independent integrator with closed-form gradients using exactly the momentum and uniform the step consumed; the decision and the endpoint are compared with sensitivity-derived tolerances. Exploration over targets, step sizes, L, batch shapes and precisions.",
         "note": "Takes the hooked draws as given (their distribution is C06's business); closed-form gradients guarded by a tensor-vs-closed-form self-check (mv SELF).",
     },
+    "C03": {
+        "technique": "runtime monitoring: trace-driven shadow execution (hook event log replayed by an f64 Algorithm-6 reference consuming the recorded draws) + orbit-membership invariant + direct calls of the private tree functions through hooks",
+        "text": "Every observed NUTS transition and every directly built tree is compared with what Algorithm 6 yields for the same momentum, slice level, directions and uniforms; discrete outcomes are compared only when the reference's decisions are robust to 2-4 ulp perturbations, otherwise the weaker orbit-membership invariant decides. Exploration over targets, step sizes (natural and forced), depths 0..12, precisions.",
+        "note": "Closed-form gradients (self-checked against the tensor code); post-order consumption of merge uniforms assumed as in Algorithm 6.",
+    },
+    "C04": {
+        "technique": "runtime monitoring: online reference model of the dual-averaging recursion fed with the recorded per-transition statistics; bitwise freeze invariant; calibrated statistical band",
+        "text": "The step size used by every observed transition is compared with an f64 dual-averaging reference driven by the same statistics, across multi-call histories; the freeze after warm-up is checked bitwise. Exploration over targets, deltas, warm-up lengths and call sequences.",
+        "note": "First momentum replicated from the seed (rand's StandardNormal on SmallRng::seed_from_u64); eps0 judged by a post-condition, not by re-running the heuristic.",
+    },
 }
